@@ -294,6 +294,12 @@ static void step(int pi, int op, int kid, int vid, int after_set, int lk, int np
                 vo = cx_newt('v', vid); b = SPIF_MAP_HAS_VALUE(mp, vo); CX_DG(b);
                 CX_CHECK(!!b == d_has_value(&before, vid), on, k, "result", "has_value(v%03d) on %s returned %d", vid, show_dict(&before), (int) b);
                 cx_del_str(vo);
+                if (vid % 5 == 0) {
+                    /* no entry of an ideal dictionary has "no value": has_value(NULL) answers FALSE (and must not dereference the probe) */
+                    b = SPIF_MAP_HAS_VALUE(mp, (spif_obj_t) NULL);
+                    CX_CHECK(!b, on, k, "result-null-probe", "has_value(NULL) on %s returned TRUE", show_dict(&before));
+                    vh_count("has_value_null_probe", 1);
+                }
                 break;
             case OP_REMOVE:
                 ko = cx_newt('k', kid); x = SPIF_MAP_REMOVE(mp, ko); got = id_pair(x); CX_DG(got);
